@@ -60,8 +60,12 @@ func quotes(ss []string) string {
 }
 
 func sortedQuotes(ss []string) string {
-	sort.Strings(ss)
-	return quotes(ss)
+	// Sort a copy. The argument may be shared data such as an element of AllWebhookTypes or the
+	// config-variables list in Config. They must not be modified since files are linted in parallel
+	s := make([]string, len(ss))
+	copy(s, ss)
+	sort.Strings(s)
+	return quotes(s)
 }
 
 func quotesAll(sss ...[]string) string {
